@@ -110,6 +110,14 @@ CLAIMED = {
             "was built; every run re-checks depth 0 exhaustively and samples deeper) plus algebraic laws on the real function; valid generated graphs x one injected "
             "structural flaw per class at a random position (also inside nested graphs) must be rejected with GraphConfigError while the original is accepted.",
             BASE_NOTE + "TypeVar, forward references, Literal, Callable are outside the universe. The structural validator's Lean model is added when ready (then claimed in the same check).", "DESIGN.md §7 C19"),
+    "C20": ("translation_validation", "Lean 4: proved validator (checkFaithful <-> Faithful) run on every real diagram; proofs for flattening, state enumeration, representatives",
+            "Every diagram the real code produces for a generated graph (interactive nodesByState/edgesByState for ALL valid expansion states x both output modes, and Mermaid "
+            "parsed back at every depth x both modes) is decided by the executable checker checkFaithful, which is proved equivalent to the declarative Faithful specification "
+            "(declared endpoints, each visible node once, every producer->consumer dependency drawn between visible representatives, no edge without a dependency); flatten lists "
+            "every nested node once under its parent with distinct ids; validStates enumerates exactly the parent-closed assignments; rep is non-empty and visible.",
+            BASE_NOTE + "No theorem says the routing code is faithful for all graphs (it is heuristic): the decision is per diagram. Checker leniency: any visible node inside a container "
+            "stands for a renamed port / gate target; INPUT and END edges are checked for declared endpoints only. Known findings C20-F1 (second mutex producer), C20-F2 (renamed "
+            "output of an expanded container in separate mode).", "DESIGN.md §7 C20"),
 }
 
 NOT_YET = "not yet claimed: check under construction (see DESIGN.md section 7)"
